@@ -55,6 +55,9 @@ inductive HCond where
   | notUintRepr (i : HIdx)     -- !(arg >= 0 && arg <= UINT_MAX) || (unsigned)arg != arg
   | ilt (a b : IExp)
   | igt (a b : IExp)
+  | ile (a b : IExp)
+  | ige (a b : IExp)
+  | ieq (a b : IExp)
   | not (c : HCond)
   | and (a b : HCond)
   | or (a b : HCond)
@@ -132,6 +135,9 @@ def hcond (a : Args) (m : Mode) (pr : HPar) (e : Env) (iv : Nat → Int) : HCond
   | .notUintRepr i, s => (!a.uintOk (i.val pr e), s)
   | .ilt x y, s => (decide (x.eval a pr e iv < y.eval a pr e iv), s)
   | .igt x y, s => (decide (x.eval a pr e iv > y.eval a pr e iv), s)
+  | .ile x y, s => (decide (x.eval a pr e iv ≤ y.eval a pr e iv), s)
+  | .ige x y, s => (decide (x.eval a pr e iv ≥ y.eval a pr e iv), s)
+  | .ieq x y, s => (decide (x.eval a pr e iv = y.eval a pr e iv), s)
   | .not c, s => let r := hcond a m pr e iv c s; (!r.1, r.2)
   | .and c1 c2, s =>
     let r := hcond a m pr e iv c1 s
